@@ -19,6 +19,9 @@ from . import vt as _vt
 
 
 def build_classes():
+    import logging
+    logging.getLogger("bacpypes").addHandler(logging.NullHandler())
+    logging.getLogger("bacpypes").propagate = False
     from bacpypes.comm import bind
     from bacpypes.pdu import Address, LocalBroadcast
     from bacpypes.vlan import Node
@@ -43,7 +46,7 @@ def build_classes():
             self.device = LocalDeviceObject(
                 objectName="dev%d" % devid, objectIdentifier=("device", devid),
                 maxApduLengthAccepted=max_apdu, segmentationSupported=seg,
-                maxSegmentsAccepted=max_segs, vendorIdentifier=999)
+                vendorIdentifier=999, **({"maxSegmentsAccepted": max_segs} if max_segs is not None else {}))
             if retries is not None:
                 self.device.numberOfApduRetries = retries
             if apdu_timeout is not None:
@@ -151,7 +154,7 @@ def build_classes():
             info = self.app.deviceInfoCache.get_device_info(other.address)
             if info is not None:
                 # not carried by an I-Am; an application that read the property would set it
-                if other.device.maxSegmentsAccepted is not None:
+                if getattr(other.device, "maxSegmentsAccepted", None) is not None:
                     info.maxSegmentsAccepted = other.device.maxSegmentsAccepted
                 if npdu_len is not None:
                     info.maxNpduLength = npdu_len
